@@ -75,4 +75,23 @@ def shaniRndMsg : List Nat := [12, 4]
     shuffle / store) have the shape `Model.CpuPaths.transformShani` follows -/
 def shaniShapeRecognised : Bool := true
 
+/-! `crypto_aes_aesni.c` -/
+/-- `MKRKEY128`: `_s = rkeys[i - a]`, `_t = rkeys[i - b]`, the two `slli_si128` byte counts -/
+def aesniMkrkey128 : List Nat := [1, 1, 4, 8]
+def aesniShuffle128 : Nat := 255
+def aesniMkrkey256 : List Nat := [2, 1, 4, 8]
+def aesniRcon128 : List UInt8 := [0x01, 0x02, 0x04, 0x08, 0x10, 0x20, 0x40, 0x80, 0x1b, 0x36]
+def aesniShufRcon256 : List (Nat × UInt8) := [(0xff, 0x01), (0xaa, 0x00), (0xff, 0x02), (0xaa, 0x00), (0xff, 0x04), (0xaa, 0x00), (0xff, 0x08), (0xaa, 0x00), (0xff, 0x10), (0xaa, 0x00), (0xff, 0x20), (0xaa, 0x00), (0xff, 0x40)]
+/-- `crypto_aes_encrypt_block_aesni_m128i`: index of the initial xor, the unconditional `aesenc` keys, the bound in
+    `if (nr > N)`, the conditional `aesenc` keys; the last round uses `aes_key[nr]` -/
+def aesniEncXor : Nat := 0
+def aesniEncFirst : List Nat := [1, 2, 3, 4, 5, 6, 7, 8, 9]
+def aesniNrSplit : Nat := 10
+def aesniEncSecond : List Nat := [10, 11, 12, 13]
+def aesniKeyLen128 : Nat := 16
+def aesniNr128 : Nat := 10
+def aesniKeyLen256 : Nat := 32
+def aesniNr256 : Nat := 14
+def aesniLoadsRecognised : Bool := true
+
 end Percival.Gen.CpuPaths
